@@ -755,7 +755,7 @@ pub fn run(ctx: &Ctx) {
         crate::engine::Tier::Quick => (6, 24),
         crate::engine::Tier::Thorough => (8, 40),
     };
-    ctx.run_generated(&Arith, ctx.tier.pick(30_000, 1_000_000), || case_strategy(d, s));
+    ctx.run_generated(&Arith, ctx.tier.pick(200_000, 2_000_000), || case_strategy(d, s));
 }
 
 pub fn replay(w: &mut Worker, sub: &str, case: &serde_json::Value) -> Option<Verdict> {
